@@ -109,7 +109,7 @@ fn check_a(c: &CaseA, st: &mut Stats) -> Result<(), String> {
     let mut disturbance_since_last_ok: u8 = 0; // bit0 failed call, bit1 settings change
     let mut reuse_first_fragment = false;
 
-    let mut feed = |dec: &mut SimpleDec, pkt: &[u8], sent: &mut Vec<Sent>, st: &mut Stats, ops: &[Op], at: usize| -> Result<(), String> {
+    let feed = |dec: &mut SimpleDec, pkt: &[u8], sent: &mut Vec<Sent>, st: &mut Stats, ops: &[Op], at: usize| -> Result<(), String> {
         match call_decap(dec, pkt) {
             Err(p) => st.violation(&format!("panic {}", p.site()), format!("ops {:?}: decap of the packet emitted by op #{} panicked: {}", ops, at, p.0)),
             Ok(Ok((DecapStatus::CompletedPkt(b, md), _))) => {
@@ -467,7 +467,7 @@ pub fn property() -> Property {
                 name: "lock-step",
                 rule: "see property rule",
                 cases: (1_000_000, 5_000_000),
-                fuzz_decode: None,
+                fuzz_decode: Some(crate::fuzzdec::c04a_case),
                 strategy: strategy_a,
                 check: check_a,
                 required_classes: &["substituted", "failed-call", "failed-call-between-equal-labels", "settings-change-between-equal-labels", "re-use-first-fragment"],
@@ -476,7 +476,7 @@ pub fn property() -> Property {
                 name: "receiver-alone",
                 rule: "see property rule",
                 cases: (1_000_000, 5_000_000),
-                fuzz_decode: None,
+                fuzz_decode: Some(crate::fuzzdec::c04b_case),
                 strategy: strategy_b,
                 check: check_b,
                 required_classes: &["re-use-start-packet", "re-use-rejected", "re-use-resolved", "re-use-after-malformed-input"],
